@@ -1,5 +1,8 @@
-import CanvasModel.C06
+import CanvasModel.C06Proto
 import CanvasProofs.Lemmas.Wn
+import CanvasProofs.Lemmas.C06Path
+import CanvasProofs.Lemmas.C06Boundary
+import CanvasGen.SweepF
 
 /-! # C06 — Containment and winding queries (partial)
 
@@ -8,8 +11,15 @@ of length ≤ 4 and random longer ones through hook VerifWindings). Proved: exac
 the look-ahead read past the end (a panic in the real code — and a witness that such a list is
 produced for open subpaths), the generic case (no endpoint hits) is the signed crossing count, the
 vertex-pair rule, boundary reporting, and reversal negates the specification's winding number.
-Whole queries (Windings, Crossings, Contains, CCW, Filling) are refined against the exact
-specification / independent oracles. -/
+Second wave: `RayIntersections` on flat subpaths is modelled in exact arithmetic (`rayHits`: the
+hits of every segment with their flags, pre-checks, stable sort by X; tied by exact correspondence of
+the real hit lists) and `windings ∘ rayHits` is PROVED to be the winding number of the specification
+for every closed flat subpath and every point off the path whose ray does not pass through the
+subpath's start vertex — including rays through vertices, along horizontal edges, and arbitrary
+self-intersections. The excluded class is the recorded start-vertex defect (witness below). On top:
+Windings/Contains of a whole path, Filling's inner loop, Crossings' count, CCW's vertex search and
+angle test (CCW = sign of the area for triangles), and soundness of the Lean verdict that judges the
+real library's answers. -/
 namespace C06
 open Canvas Canvas.C06 Canvas.Wn
 
@@ -132,5 +142,252 @@ theorem reverse_negates (p : IPt) (polys : List (List IPt)) :
 /-- non-vacuity: a paired list exists and is evaluated -/
 example : windings [⟨false, false, true, false⟩, ⟨false, false, true, false⟩, ⟨false, true, false, false⟩] = .ok 0 false := by
   simp [windings, go, dir]
+
+
+/-! ## Second wave: RayIntersections model → winding number -/
+
+/-- `windings` on a list in which the walk always finds an end-point partner (and no hit is at the
+ray start): never reads past the end, and — when the overlapping sections close — twice the result is
+the order-independent weight sum (2 per crossing inside a segment, 1 per end-point hit, 0 per
+overlapping hit, signed by direction) plus what an open overlapping section owed. -/
+theorem windings_is_half_weight_sum (zs : List Z) (n : Int) (b : Bool) (st : Bool × Bool)
+    (hw : WPz zs = true) (hc : Clean zs) :
+    ∃ m, go zs n b st = .ok m b ∧
+      ((st.1 != decide (nsame zs % 2 = 1)) = false → 2 * m = 2 * n + phi st + W zs) :=
+  go_weight zs n b st hw hc
+
+example : WPz [⟨false, false, true, false⟩, ⟨false, true, true, true⟩] = true ∧
+    Clean [⟨false, false, true, false⟩, ⟨false, true, true, true⟩] := by
+  constructor
+  · decide
+  · intro z hz; simp at hz; rcases hz with rfl | rfl <;> simp
+
+/-- The stable sort cannot separate partners: inserting a generic hit, or two end-point hits with the
+same position one after the other, into a walk-paired list keeps it walk-paired. -/
+theorem pairing_survives_sort (g z1 z2 : Hit) (s : List Hit) (hs : WP s = true)
+    (hg : g.tb = .mid) (h1 : z1.tb ≠ .mid) (h2 : z2.tb ≠ .mid) (hx : z2.x = z1.x) :
+    WP (ins g s) = true ∧ WP (ins z1 (ins z2 s)) = true :=
+  ⟨WP_ins_mid g hg s hs, WP_ins_pair z1 z2 h1 h2 hx (rat_irrefl _) s hs⟩
+
+example : WP [⟨3, false, true, .one, false⟩, ⟨3, false, false, .zero, false⟩] = true := by decide +kernel
+
+/-- Off the segment, the hits of one segment are: none, one inside, one at its start, one at its end,
+or the two overlapping end hits — with the geometric facts that go with each shape. -/
+theorem segment_hits_classified (p a b : IPt) (hne : a ≠ b) (hoff : ¬ onSeg p a b) :
+    EdgeCase p a b := edge_cases p a b hne hoff
+
+example : ¬ onSeg ⟨0, 0⟩ ⟨2, -1⟩ ⟨2, 3⟩ := by simp [onSeg, isLeft]
+
+/-- Along any vertex chain off the query point the hit weights are twice the specification's
+crossing sum plus a telescoping term: [last vertex on the ray] − [first vertex on the ray]. -/
+theorem hit_weights_telescope (p a : IPt) (rest : List IPt) (hoff : offChain p (a :: rest)) :
+    W ((chainHits p (a :: rest)).map Hit.z) =
+      2 * chainW p (a :: rest) + fI p ((a :: rest).getLast (by simp)) - fI p a :=
+  chain_W p rest a hoff
+
+example : offChain ⟨-1, 0⟩ [⟨0, 3⟩, ⟨0, 0⟩, ⟨4, 0⟩, ⟨4, -3⟩] := by
+  simp [offChain, onSeg, isLeft]
+
+/-- Full statement: for every closed flat subpath and every point off it, the model of
+`windings(RayIntersections(x,y))` is the winding number. FALSE for the code as it is (see
+`start_vertex_coincidence_defect`); proved below with the start vertex off the ray. -/
+def windings_refines_wn_statement : Prop :=
+  ∀ (p : IPt) (poly : List IPt), offChain p (subpathVerts true poly) →
+    windingsSub true p poly = .ok (wn1 p poly) false
+
+/-- Closed flat subpath (any number of vertices, self-intersections, vertices and horizontal edges on
+the ray allowed), query point on no segment, start vertex not on the ray to the right of the point:
+`windings(RayIntersections)` does not panic, reports no boundary and returns the winding number. -/
+theorem windings_refines_wn_partial (p a : IPt) (r : List IPt)
+    (hoff : offChain p (subpathVerts true (a :: r))) (hstart : fR p a = false) :
+    windingsSub true p (a :: r) = .ok (wn1 p (a :: r)) false :=
+  windingsSub_refines p a r hoff hstart
+
+/-- non-vacuity: an L-shaped polygon, ray along a horizontal edge through which the path steps -/
+example : offChain ⟨-1, 0⟩ (subpathVerts true [⟨4, -3⟩, ⟨-2, -3⟩, ⟨-2, 3⟩, ⟨0, 3⟩, ⟨0, 0⟩, ⟨4, 0⟩]) ∧
+    fR ⟨-1, 0⟩ ⟨4, -3⟩ = false := by
+  constructor
+  · simp [offChain, subpathVerts, onSeg, isLeft]
+  · decide
+
+/-- The excluded class is a real defect: an edge passes through the start vertex, the point is level
+with it; the start vertex' two end-point hits are the first and last of the path and the other hit
+sorts between them: the real code indexes past the list (panic), the winding number is 0. -/
+theorem start_vertex_coincidence_defect :
+    offChain ⟨-1, 0⟩ (subpathVerts true [⟨2, 0⟩, ⟨4, 2⟩, ⟨0, -2⟩, ⟨4, -2⟩, ⟨0, 2⟩]) ∧
+    windingsSub true ⟨-1, 0⟩ [⟨2, 0⟩, ⟨4, 2⟩, ⟨0, -2⟩, ⟨4, -2⟩, ⟨0, 2⟩] = .panic ∧
+    wn1 ⟨-1, 0⟩ [⟨2, 0⟩, ⟨4, 2⟩, ⟨0, -2⟩, ⟨4, -2⟩, ⟨0, 2⟩] = 0 := by
+  refine ⟨by simp [offChain, subpathVerts, onSeg, isLeft], by decide +kernel, by decide⟩
+
+theorem windings_refines_wn_statement_fails : ¬ windings_refines_wn_statement := by
+  intro h
+  have := h ⟨-1, 0⟩ [⟨2, 0⟩, ⟨4, 2⟩, ⟨0, -2⟩, ⟨4, -2⟩, ⟨0, 2⟩] start_vertex_coincidence_defect.1
+  rw [start_vertex_coincidence_defect.2.1] at this
+  exact Outcome.noConfusion this
+
+/-- `Path.Windings` on closed flat subpaths in that position is the winding number of the whole path -/
+theorem windingsPath_refines_partial (p : IPt) (subs : List Sub) (h : ∀ s ∈ subs, GoodSub p s) :
+    windingsPath p subs = .ok (wn p (subs.map (·.2))) false := by
+  have := windingsPathGo_refines p subs h 0
+  simpa [windingsPath] using this
+
+/-- `Path.Contains(x, y, rule)` is `rule.Fills(winding number)` -/
+theorem contains_refines_partial (rule : Rule) (p : IPt) (subs : List Sub)
+    (h : ∀ s ∈ subs, GoodSub p s) :
+    containsPath rule p subs = some (rule.fills (wn p (subs.map (·.2)))) := by
+  simp [containsPath, windingsPath_refines_partial p subs h]
+
+example : GoodSub ⟨1, 1⟩ (true, [⟨0, 0⟩, ⟨4, 0⟩, ⟨4, 4⟩, ⟨0, 4⟩]) := by
+  refine ⟨rfl, ⟨0, 0⟩, [⟨4, 0⟩, ⟨4, 4⟩, ⟨0, 4⟩], rfl, ?_, by decide⟩
+  simp [offChain, subpathVerts, onSeg, isLeft]
+
+/-- `Path.Filling`, inner loop for subpath i: the sum over the other subpaths is the winding number
+of the other contours around the start vertex of subpath i -/
+theorem filling_others_refines_partial (pos : IPt) (i : Nat) (subs : List Sub) (n : Int)
+    (h : ∀ k (hk : k < subs.length), k ≠ i → GoodSub pos subs[k]) :
+    othersGo pos i subs 0 n = some (n + wnOthers pos i (subs.map (·.2)) 0) :=
+  othersGo_refines pos i subs 0 n (fun k hk hne => h k hk (by omega))
+
+example : ∀ k (hk : k < [((true, [⟨5, 5⟩, ⟨6, 5⟩, ⟨6, 6⟩]) : Sub), (true, [⟨0, 0⟩, ⟨9, 0⟩, ⟨9, 9⟩, ⟨0, 9⟩])].length),
+    k ≠ 0 → GoodSub ⟨5, 5⟩ [((true, [⟨5, 5⟩, ⟨6, 5⟩, ⟨6, 6⟩]) : Sub), (true, [⟨0, 0⟩, ⟨9, 0⟩, ⟨9, 9⟩, ⟨0, 9⟩])][k] := by
+  intro k hk hne
+  have : k = 1 := by simp at hk; omega
+  subst this
+  refine ⟨rfl, ⟨0, 0⟩, [⟨9, 0⟩, ⟨9, 9⟩, ⟨0, 9⟩], rfl, ?_, by decide⟩
+  simp [offChain, subpathVerts, onSeg, isLeft]
+
+/-- `Path.Crossings`: without a hit at the ray start, the count is the sum of the half-crossings:
+2 inside a segment, 1 at an end point (a vertex on the ray counts as one crossing whether the path
+crosses or only touches there), −1 for an overlapping end-point hit. -/
+theorem crossings_is_half_sum (zs : List Z) (h : Int) (b : Bool) (hc : ∀ z ∈ zs, z.t0zero = false) :
+    crossHalves zs h b = (h + H zs, b) := crossHalves_sum zs h b hc
+
+theorem crossings_generic (zs : List Z) (h : Int) (b : Bool)
+    (hg : ∀ z ∈ zs, z.t0zero = false ∧ z.endpoint = false ∧ z.same = false) :
+    crossHalves zs h b = (h + 2 * zs.length, b) := crossHalves_generic zs h b hg
+
+/-- in the generic case the parity of Crossings is the parity of Windings -/
+theorem crossings_parity_generic (zs : List Z) :
+    (crossingSum zs - (zs.length : Int)) % 2 = 0 := by
+  induction zs with
+  | nil => simp [crossingSum]
+  | cons z rest ih =>
+    simp only [crossingSum, dir, List.length_cons]
+    split <;> push_cast <;> omega
+
+/-- a ray touching a peak vertex: Windings counts 0, Crossings counts one -/
+example : windings [⟨false, false, true, false⟩, ⟨false, true, true, false⟩] = .ok 0 false ∧
+    crossHalves [⟨false, false, true, false⟩, ⟨false, true, true, false⟩] 0 false = (2, false) := by
+  constructor
+  · simp [windings, go, dir]
+  · decide
+
+/-! ## CCW -/
+
+/-- The vertex search of `CCW` ends on a vertex that no vertex of the subpath beats: none lies
+further right, none equally far right lies lower (Close's end point is not a candidate). -/
+theorem ccw_picks_bottom_right_most (v0 : IPt) (rest : List IPt) (d : IPt) :
+    extreme (v0 :: rest) < (v0 :: rest).length ∧
+    ∀ v ∈ v0 :: rest, better ((v0 :: rest).getD (extreme (v0 :: rest)) d) v = false :=
+  extreme_is_bottom_right_most v0 rest d
+
+/-- At such a vertex both neighbours lie to the left (or straight above), and there the comparison of
+the two angles in [0,2π) is exactly the sign of the cross product of the two directions. -/
+theorem ccw_angle_test_is_cross (v u w : IPt) (hu : better v u = false) (hw : better v w = false)
+    (hune : u ≠ v) (hwne : w ≠ v) :
+    angLt (vsub w v) (vsub u v) = decide (0 < cross (vsub w v) (vsub u v)) :=
+  angLt_leftward _ _ (leftward_of_not_better v w hw hwne) (leftward_of_not_better v u hu hune)
+
+example : better ⟨3, 0⟩ ⟨1, 2⟩ = false ∧ better ⟨3, 0⟩ ⟨3, 5⟩ = false := by decide
+
+/-- Full statement: CCW of a simple closed polygon is the sign of its area. -/
+def ccw_is_area_sign_statement : Prop :=
+  ∀ vs : List IPt, isSimple vs = true → area2 vs ≠ 0 →
+    ccwFlat true vs = some (decide (0 < area2 vs))
+
+/-- proved for triangles (every vertex order, every start vertex); for more vertices the step from
+"left turn at the bottom-right-most vertex" to "positive area" needs the Jordan curve theorem for
+polygons and is only tested (verdict `CCWSPEC`) -/
+theorem ccw_is_area_sign_partial (a b c : IPt) (hA : area2 [a, b, c] ≠ 0) :
+    ccwFlat true [a, b, c] = some (decide (0 < area2 [a, b, c])) :=
+  ccw_triangle_area a b c hA
+
+example : area2 [(⟨0, 0⟩ : IPt), ⟨4, 0⟩, ⟨0, 3⟩] ≠ 0 := by decide
+
+/-! ## the Lean verdict that judges the library's reported winding numbers -/
+
+/-- verdict ok ⇒ every judged point (farther than δ from the path) was reported correctly -/
+theorem verdict_ok_sound (P : List (List IPt)) (d2 : Int) (pts : List IPt) (reps : List Int)
+    (c' s' : Nat) (h : judgeWind P d2 pts reps 0 0 0 = .ok c' s') :
+    ∀ pr ∈ pts.zip reps, farFromAll pr.1 d2 P = true → wn pr.1 P = pr.2 :=
+  judgeWind_sound P d2 pts reps 0 0 0 c' s' h
+
+/-- verdict fail ⇒ there is a judged point whose reported value differs from the winding number -/
+theorem verdict_fail_exhibits (P : List (List IPt)) (d2 : Int) (pts : List IPt) (reps : List Int)
+    (i : Nat) (w r : Int) (h : judgeWind P d2 pts reps 0 0 0 = .fail i w r) :
+    ∃ pr ∈ pts.zip reps, farFromAll pr.1 d2 P = true ∧ wn pr.1 P = w ∧ pr.2 = r ∧ w ≠ r :=
+  judgeWind_fail P d2 pts reps 0 0 0 i w r h
+
+example : judgeWind [[⟨0, 0⟩, ⟨4, 0⟩, ⟨4, 4⟩, ⟨0, 4⟩]] 1 [⟨2, 2⟩] [0] 0 0 0 = .fail 0 1 0 := by decide
+
+/-- monotone in the tolerance: a point judged with the wider band is judged with every narrower one -/
+theorem verdict_band_monotone (p : IPt) (d d' : Int) (hd : d ≤ d') (P : List (List IPt))
+    (h : farFromAll p d' P = true) : farFromAll p d P = true :=
+  farFromAll_mono p d d' hd P h
+
+/-- the verdict's specification is invariant under translation and under the positive rescaling
+used to decode float64 coordinates to integers -/
+theorem verdict_spec_invariant (k : Int) (hk : 0 < k) (p t : IPt) (poly : List IPt) :
+    wn1 (p.add t) (poly.map (·.add t)) = wn1 p poly ∧
+    wn1 (IPt.smul k p) (poly.map (IPt.smul k)) = wn1 p poly :=
+  ⟨wn1_translate p t poly, wn1_smul k hk p poly⟩
+
+example : judgeWind [[⟨0, 0⟩, ⟨4, 0⟩, ⟨4, 4⟩, ⟨0, 4⟩]] 1 [⟨2, 2⟩, ⟨9, 9⟩] [1, 0] 0 0 0 = .ok 2 0 := by
+  decide
+
+
+/-! ## boundary reporting (every flat subpath, open or closed, every query point) -/
+
+/-- every hit lies at or to the right of the query point, and carries T[0] = 0 exactly when it is at
+the query point; such a hit exists exactly when the point lies on a segment of the chain -/
+theorem hits_at_query_point_iff_on_path (p : IPt) (l : List IPt) :
+    (∀ h ∈ chainHits p l, (p.x : Rat) ≤ h.x ∧ (h.t0zero = true ↔ h.x = (p.x : Rat))) ∧
+    ((∃ h ∈ chainHits p l, h.t0zero = true) ↔ onChain p l) :=
+  chain_boundary p l
+
+/-- Whenever `windings(RayIntersections)` of a subpath returns, its boundary flag is set iff the query
+point lies on one of the subpath's segments (the sort brings a hit at the query point to the front,
+where `windings` cannot skip it as the partner of an end-point hit). -/
+theorem boundary_reported_iff_on_path (closed : Bool) (p : IPt) (poly : List IPt) (m : Int) (b : Bool)
+    (h : windingsSub closed p poly = .ok m b) :
+    b = true ↔ onChain p (subpathVerts closed poly) :=
+  boundary_flag_iff closed p poly m b h
+
+example : windingsSub true ⟨2, 0⟩ [⟨0, 0⟩, ⟨4, 0⟩, ⟨4, 4⟩] = .ok 0 true ∧
+    onChain ⟨2, 0⟩ (subpathVerts true [⟨0, 0⟩, ⟨4, 0⟩, ⟨4, 4⟩]) := by
+  constructor
+  · decide +kernel
+  · simp [onChain, subpathVerts, onSeg, isLeft]
+
+
+/-! ## the fill rule as translated from source -/
+
+/-- `FillRule.Fills` regenerated from /repo on every run (L1) is the specification's `Rule.fills`
+that `Contains`/`Filling` are stated with -/
+theorem fills_translated_eq_spec (w : Int) :
+    GenF.FillRule.Fills GenF.NonZero w = Rule.nonZero.fills w ∧
+    GenF.FillRule.Fills GenF.EvenOdd w = Rule.evenOdd.fills w ∧
+    GenF.FillRule.Fills GenF.Positive w = Rule.positive.fills w ∧
+    GenF.FillRule.Fills GenF.Negative w = Rule.negative.fills w := by
+  have hpar : (Int.tmod w 2 ≠ 0) ↔ (w % 2 ≠ 0) := by
+    by_cases hw : 0 ≤ w
+    · rw [Int.tmod_eq_emod_of_nonneg hw]
+    · have hv : w = -(-w) := by omega
+      have h1 : Int.tmod w 2 = -(Int.tmod (-w) 2) := by
+        conv => lhs; rw [hv, Int.neg_tmod]
+      rw [h1, Int.tmod_eq_emod_of_nonneg (by omega : 0 ≤ -w)]
+      omega
+  refine ⟨?_, ?_, ?_, ?_⟩ <;>
+    simp [GenF.FillRule.Fills, GenF.NonZero, GenF.EvenOdd, GenF.Positive, GenF.Negative, Rule.fills, hpar]
 
 end C06
